@@ -26,13 +26,14 @@ RULE = ("cases = generated dyadic specifications forced to reuse one parameter n
         "distinct = structural signature; evaluations = template entries compared + value entries compared + agent-periods checked")
 ASSUMPTIONS = ["exact comparison on dyadic inputs"]
 FORCES = [["collide"], ["collide", "stoch"], ["collide", "aux"], ["collide", "constraint"], ["collide", "mixed"], ["collide", "stoch", "aux"], ["stoch"], None,
-          ["collide", "twin"], ["twin", "aux"]]
+          ["collide", "twin"], ["twin", "aux"], ["stoch", "iid"]]
 
 
 def cases(seed, tier):
     n = 32 if tier == "quick" else 500
     return [{"kind": "gen", "seed": seed * 1_000_003 + 70001 + i, "force": FORCES[i % len(FORCES)], "n_params": 1, "budget": 3000,
-             "simulate": i % 3 == 0, "jit": i % 2 == 0} for i in range(n)]
+             "simulate": i % 3 == 0 and "iid" not in (FORCES[i % len(FORCES)] or []),   # simulating an argument-less transition: finding K3
+             "jit": i % 2 == 0} for i in range(n)]
 
 
 def distinct_values(r, P):
